@@ -129,6 +129,12 @@ func (P *Prog) buildRecDef(sf *SpecFunc) string {
 		return decl
 	}
 	ax := fmt.Sprintf("(assert (forall (%s) (! (= %s %s) :pattern (%s))))", strings.Join(binders, " "), app, x.termOf(body), app)
+	if isNonlinear(parseSexp(x.termOf(body))) {
+		if P.nonlinearDef == nil {
+			P.nonlinearDef = map[string]bool{}
+		}
+		P.nonlinearDef[sf.Name] = true
+	}
 	return decl + "\n" + ax
 }
 
@@ -275,4 +281,42 @@ func (P *Prog) opaqueNames() []string {
 	}
 	sort.Strings(ns)
 	return ns
+}
+
+// isNonlinear: the term multiplies two non-literal terms or divides by a non-literal.
+func isNonlinear(e *sexp) bool {
+	if e == nil || e.isAtom() {
+		return false
+	}
+	switch e.head() {
+	case "*":
+		n := 0
+		for _, k := range e.kids[1:] {
+			if !(k.isAtom() && isLit(k.atom)) && !isNegLit(k.String()) {
+				n++
+			}
+		}
+		if n >= 2 {
+			return true
+		}
+	case "div", "mod", "tdiv", "tmod":
+		if len(e.kids) == 3 {
+			d := e.kids[2]
+			if !(d.isAtom() && isLit(d.atom)) {
+				return true
+			}
+		}
+	}
+	for _, k := range e.kids {
+		if isNonlinear(k) {
+			return true
+		}
+	}
+	return false
+}
+
+func (P *Prog) isNonlinearDef(name string) bool {
+	P.mu.Lock()
+	defer P.mu.Unlock()
+	return P.nonlinearDef[name]
 }
